@@ -198,6 +198,83 @@ def make_e_components(params, part, nparts):
     return h
 
 
+GEN_OPS = ['register x', 'register y', 'unregister x', 'unregister y', 'subscribe s', 'rebuild']
+
+
+def run_generation(a_ops, b_ops, depth):
+    """Verifying chain reg0 -> ... -> reg(depth): ops A on the last registry, one lookup from reg0 (its snapshot records the generations),
+    ops B on the last registry with no lookup in between, then every entry point of reg0 against a chain built afterwards.  A generation
+    value that comes back after the content changed would make the snapshot look current."""
+    from zope.interface import Interface
+    from zope.interface.adapter import VerifyingAdapterRegistry
+    from zope.interface.interface import InterfaceClass
+    mod = U_fresh()
+    IR, IP, IQ = [InterfaceClass(n, (Interface,), __module__=mod) for n in ('IR', 'IP', 'IQ')]
+
+    def chain():
+        regs = [VerifyingAdapterRegistry()]
+        for _ in range(depth):
+            regs.insert(0, VerifyingAdapterRegistry((regs[0],)))
+        return regs
+
+    def apply(reg, op):
+        if op == 0:
+            reg.register([IR], IP, '', 'x')
+        elif op == 1:
+            reg.register([IR], IQ, '', 'y')
+        elif op == 2:
+            reg.unregister([IR], IP, '')
+        elif op == 3:
+            reg.unregister([IR], IQ, '')
+        elif op == 4:
+            reg.subscribe([IR], IP, 's')
+        else:
+            reg.rebuild()
+
+    def obs(r):
+        return [r.lookup((IR,), IP), r.lookup1(IR, IQ), sorted(r.lookupAll((IR,), IP)), list(r.subscriptions((IR,), IP)),
+                r.lookup((IR,), IQ, '', 'dflt')]
+    regs = chain()
+    for op in a_ops:
+        apply(regs[-1], op)
+    obs(regs[0])
+    for op in b_ops:
+        apply(regs[-1], op)
+    got = obs(regs[0])
+    fresh = chain()
+    for op in tuple(a_ops) + tuple(b_ops):
+        if op != 5:
+            apply(fresh[-1], op)
+    exp = obs(fresh[0])
+    if got != exp:
+        raise Violation('verifying chain of %d registries: [%s] on the last one, lookups from the first, then [%s] on the last one with no lookup in '
+                        'between: the first registry answers %r, a chain built afterwards answers %r' % (
+                            depth + 1, ', '.join(GEN_OPS[o] for o in a_ops), ', '.join(GEN_OPS[o] for o in b_ops), got, exp),
+                        signature='C06:answers-differ:verifying')
+
+
+def U_fresh():
+    from vlib import universe as U
+    return U.fresh_module_name()
+
+
+def make_e_generation(params, part, nparts):
+    NA, NB = params.get('na', 2), params.get('nb', 4)
+    NO = len(GEN_OPS)
+
+    def h(la: int, lb: int, d: int, a1: int, a2: int, b1: int, b2: int, b3: int, b4: int, b5: int):
+        cb1 = pick(b1, NO)
+        assume(cb1 % nparts == part)
+        na = pick(la, NA + 1)
+        nb = pick(lb, NB) + 1
+        a_ops = tuple(pick(o, NO) for o in (a1, a2)[:na])
+        b_ops = (cb1,) + tuple(pick(o, NO) for o in (b2, b3, b4, b5)[:nb - 1])
+        depth = pick(d, 2) + 1
+        reached((a_ops, b_ops, depth), dict(a=[GEN_OPS[o] for o in a_ops], b=[GEN_OPS[o] for o in b_ops], depth=depth))
+        native(run_generation, a_ops, b_ops, depth)
+    return h
+
+
 _ENC = ['zope.interface.adapter:BaseAdapterRegistry._setBases', 'zope.interface.adapter:AdapterRegistry._setBases',
         'zope.interface.adapter:AdapterRegistry.changed', 'zope.interface.adapter:AdapterRegistry._addSubregistry',
         'zope.interface.adapter:VerifyingBaseFallback.changed', 'zope.interface.adapter:VerifyingBaseFallback._verify',
@@ -228,6 +305,15 @@ HARNESSES = [
                    'bases and queryUtility / adapters.lookup / queryAdapter find the nearest registration',
             outside='re-initialising a component other components are based on (their registries keep the old base registries)',
             oracle='nearest registration along the C3 order of the current bases'),
+    Harness('e_generation', make_e_generation, kind='E', impls=('py', 'c'),
+            tiers=dict(quick=dict(budget_s=120, parts=12, params=dict(na=1, nb=4)), thorough=dict(budget_s=1500, parts=12, params=dict(na=2, nb=5))),
+            encoded=_ENC + ['zope.interface.adapter:BaseAdapterRegistry.rebuild', 'zope.interface.adapter:BaseAdapterRegistry.__init__',
+                            'zope.interface.adapter:BaseAdapterRegistry.changed'],
+            bounds='verifying chains of 2 and 3 registries; <=1 (thorough 2) operations on the last registry, one round of lookups from the first, then 1..4 '
+                   '(thorough 5) operations on the last registry with no lookup in between, from {register x, register y, unregister x, '
+                   'unregister y, subscribe, rebuild()}; 5 entry points of the first registry',
+            outside='longer silent stretches; operations on several registries between two lookups (e_chain_verifying)',
+            oracle='a chain built afterwards with the same registrations (generation values must never come back after the content changed)'),
 ]
 
 MANIFEST = {
